@@ -114,10 +114,11 @@ RMatch(r, w) ==
                  \/ (w = <<>> /\ RMatch(r[2], <<>>))
 
 \* text of a regex as a user writes it: parentheses only where precedence needs them
+Special == {"$", "^", ".", "|", "(", ")", "*", "+", "?", "[", "]"}   \* literal use needs a backslash
 Prec(r) == CASE r[1] = "alt" -> 0 [] r[1] = "cat" -> 1 [] r[1] = "rep" -> 2 [] OTHER -> 3
 RECURSIVE Render(_, _)
 Render(r, ctx) ==
-    LET body == CASE r[1] = "lit" -> <<r[2]>>
+    LET body == CASE r[1] = "lit" -> (IF r[2] \in Special THEN <<"B", r[2]>> ELSE <<r[2]>>)
                   [] r[1] = "any" -> <<".">>
                   [] r[1] = "cls" -> <<"[">> \o r[2] \o <<"]">>
                   [] r[1] = "cat" -> Render(r[2], 1) \o Render(r[3], 1)
@@ -133,13 +134,15 @@ Sigma == {"a", "b", "E"}
 Words == SeqsUpTo(Sigma, 3)
 Lines == Words \cup {WithNL(w) : w \in Words}
 
-Atoms == {<<"lit", "a">>, <<"lit", "b">>, <<"lit", "E">>, <<"any">>, <<"cls", <<"a", "b">>>>}
+Atoms == {<<"lit", "a">>, <<"lit", "b">>, <<"lit", "E">>, <<"lit", "$">>, <<"any">>, <<"cls", <<"a", "b">>>>}
+RWords == SeqsUpTo(Sigma \cup {"$"}, 3)
+RLines == RWords \cup {WithNL(w) : w \in RWords}
 Ops(S, T) == {<<"rep", x, o>> : x \in S, o \in {"*", "?", "+"}}
              \cup {<<"cat", x, y>> : x \in S, y \in T} \cup {<<"alt", x, y>> : x \in S, y \in T}
 L1 == Atoms \cup Ops(Atoms, Atoms)
 Small == {<<"lit", "a">>, <<"lit", "b">>, <<"any">>, <<"rep", <<"lit", "a">>, "*">>, <<"rep", <<"lit", "b">>, "?">>,
           <<"cat", <<"lit", "a">>, <<"lit", "b">>>>, <<"alt", <<"lit", "a">>, <<"lit", "b">>>>,
-          <<"alt", <<"lit", "E">>, <<"lit", "a">>>>}
+          <<"alt", <<"lit", "E">>, <<"lit", "a">>>>, <<"lit", "$">>}
 Regexes == IF Tier = "quick" THEN L1 \cup Ops(Small, Small) ELSE L1 \cup Ops(L1, L1)
 
 GlobPatterns == SeqsUpTo(Sigma \cup {"?", "*"}, IF Tier = "quick" THEN 3 ELSE 4)
@@ -179,7 +182,7 @@ Spec == Init /\ [][Next]_vars
 \* a candidate must be one line: LF only as the last token
 ValidLine(l) == \A x \in 1..(Len(l) - 1) : l[x] # NL
 \* the candidate lines and the documented verdict for each
-AllCands == CASE kind = "regex" -> Lines
+AllCands == CASE kind = "regex" -> RLines
            [] kind = "glob" -> Lines
            [] kind = "cramglob" -> CramLines
            [] kind = "escaped" -> (IF Decode(expr) = ERR THEN {} ELSE EscCands(expr, Decode(expr)))
@@ -199,8 +202,8 @@ MustFail == kind \in {"escaped", "escglob"} /\ Decode(expr) = ERR
 (* sanity theorems about the reference itself, checked by TLC over the enumeration *)
 GlobStarIsAny   == kind = "glob" /\ expr = <<"*">> => \A l \in Lines : Expected(l)
 GlobNoWildIsEq  == kind = "glob" /\ (\A i \in 1..Len(expr) : expr[i] \in Sigma) => \A l \in Lines : Expected(l) <=> TrimNL(l) = expr
-RegexAltComm    == kind = "regex" /\ ast[1] = "alt" => \A l \in Lines : Expected(l) <=> RMatch(<<"alt", ast[3], ast[2]>>, TrimNL(l))
-RegexWholeLine  == kind = "regex" /\ ast[1] = "lit" => \A l \in Lines : Expected(l) <=> TrimNL(l) = <<ast[2]>>
+RegexAltComm    == kind = "regex" /\ ast[1] = "alt" => \A l \in RLines : Expected(l) <=> RMatch(<<"alt", ast[3], ast[2]>>, TrimNL(l))
+RegexWholeLine  == kind = "regex" /\ ast[1] = "lit" => \A l \in RLines : Expected(l) <=> TrimNL(l) = <<ast[2]>>
 EqualNeedsNL    == kind = "equal" => ~Expected(expr) /\ Expected(WithNL(expr))
 RefSanity == GlobStarIsAny /\ GlobNoWildIsEq /\ RegexAltComm /\ RegexWholeLine /\ EqualNeedsNL
 =============================================================================
